@@ -69,6 +69,10 @@ def main():
     known = C.known_findings(pid)
     n_viol = 0
     printed_known = set()
+    # obligations that only the thorough tier evaluates come back as violations flagged no_input: they are reported last, and
+    # only when the differential search of the same run produced no concrete failing input
+    deferred = [v for v in violations if v.get("no_input")]
+    violations = [v for v in violations if not v.get("no_input")]
     for v in violations:
         ident = v.get("identity", "")
         kf = next((k for k in known if k["identity"] == ident), None)
@@ -81,6 +85,10 @@ def main():
         if n_viol <= 3:
             path = C.write_replay(pid, v.get("replay_payload", v))
             C.violation(pid, path)
+    if deferred and n_viol == 0 and not broken:
+        for v in deferred[:3]:
+            n_viol += 1
+            C.violation(pid, C.write_replay(pid, v.get("replay_payload", v)), no_input=True)
     if broken and n_viol == 0:
         # the property is no longer shown to hold, and no concrete failing input was found
         extra = mod.search(ctx) if hasattr(mod, "search") else []
